@@ -519,8 +519,10 @@ def run_source(task):
     meta0 = metadata(m)
     before = render_hash(st, m)
     # precondition of the re-encode part: the message itself can be re-encoded and decoded
+    reenc0 = None
     try:
-        st['dec'].process(st['enc'].process(st['render'].render(m), wire_template_data=False).serialized_bytes, wire_template_data=False)
+        reenc0 = st['enc'].process(st['render'].render(m), wire_template_data=False).serialized_bytes
+        st['dec'].process(reenc0, wire_template_data=False)
         st['reencodable'] = True
     except Exception as e:
         st['reencodable'] = False
@@ -562,7 +564,7 @@ def run_source(task):
                 ops = only_hist['ops']
             else:
                 ops = c10hist.plan(core.rng_for(PROP, seed, 'hist:%s:%s' % (which, json.dumps(src, sort_keys=True))), n, tier)
-            h = c10hist.execute(st, mh, fh, ops, reencodable=st['reencodable'])
+            h = c10hist.execute(st, mh, fh, ops, reencodable=st['reencodable'], reenc0=reenc0 if st['reencodable'] else None)
             h['which'], h['ops'] = which, ops
             hists.append(h)
     # the model on the same message and collections
